@@ -19,10 +19,11 @@ func (e *Engine) newVC(fn *ssa.Function, c *Contract, dropped map[string]bool) *
 func (e *Engine) newVCMode(fn *ssa.Function, c *Contract, dropped map[string]bool, mode string) *VC {
 	vc := &VC{e: e, fn: fn, c: c, vals: map[ssa.Value]*Val{}, globals: map[*ssa.Global]string{}, strlits: map[string]string{},
 		obCount: map[string]int{}, dropped: dropped, trusted: map[string]bool{}, callees: map[string]bool{}, csHit: map[*CallSite]bool{}, obReturn: map[*Obligation]*ssa.Return{}}
-	if mode == "" && c != nil && c.Mode == "int" {
-		mode = "int"
+	if mode == "" && c != nil && (c.Mode == "int" || c.Mode == "ring") {
+		mode = c.Mode
 	}
-	vc.intMode = mode == "int"
+	vc.intMode = mode == "int" || mode == "ring"
+	vc.ringMode = mode == "ring"
 	vc.heap0 = vc.newHeap0()
 	vc.decls = append(vc.decls, "(assert (< 0 alloc0))")
 	return vc
@@ -34,11 +35,12 @@ func (e *Engine) genVC(fn *ssa.Function, dropped map[string]bool, mode string) (
 	genMu.Lock()
 	defer genMu.Unlock()
 	c := e.contractFor(fn)
-	if mode == "" && c != nil && c.Mode == "int" {
-		mode = "int"
+	if mode == "" && c != nil && (c.Mode == "int" || c.Mode == "ring") {
+		mode = c.Mode
 	}
-	genIntMode = mode == "int"
-	defer func() { genIntMode = false }()
+	genIntMode = mode == "int" || mode == "ring"
+	genRingMode = mode == "ring"
+	defer func() { genIntMode, genRingMode = false, false }()
 	vc = e.newVCMode(fn, c, dropped, mode)
 	defer func() {
 		if r := recover(); r != nil {
